@@ -171,7 +171,15 @@ func c06One(o *out, s string, tag string) {
 }
 
 func c06Segments(o *out, segs []string) {
+	given := append([]string(nil), segs...)
 	qi := influxql.QuoteIdent(segs...)
+	// the list that was handed in is the caller's: it reads as before, and quoting it again gives the same text
+	o.checked()
+	if strings.Join(segs, "\x00") != strings.Join(given, "\x00") || influxql.QuoteIdent(segs...) != qi {
+		o.fail("", fmt.Sprintf("QuoteIdent(%q...) left its argument as %q; quoted again it gives %q, the first time %q", given, segs, influxql.QuoteIdent(given...), qi),
+			map[string]interface{}{"op": "quote_segments", "text": strings.Join(given, "\x1f")})
+		copy(segs, given)
+	}
 	vm := true
 	for _, s := range segs {
 		vm = vm && asciiNoFloat(s)
@@ -224,7 +232,7 @@ func propC06(o *out, r *rng, thorough bool) {
 	// code points a text layer might treat specially (byte order mark, zero width, bidi and format controls, line and
 	// paragraph separators, non-breaking and exotic spaces, noncharacters, private use, combining marks, the last
 	// code point): alone, between letters, next to each quote and the escape character
-	for _, c := range []rune{0xFEFF, 0xFFFE, 0xFFFF, 0xFFFD, 0xFFFC, 0x200B, 0x200C, 0x200D, 0x200E, 0x200F, 0x202A, 0x202E, 0x2060, 0x2066, 0x2069, 0x061C, 0x180E, 0x00AD, 0x2028, 0x2029, 0x0085,
+	for _, c := range []rune{0x2018, 0x2019, 0x201C, 0x201D, 0x00B4, 0x0060, 0x2032, 0x2033, 0xFF07, 0xFF02, 0x02BC, 0xFEFF, 0xFFFE, 0xFFFF, 0xFFFD, 0xFFFC, 0x200B, 0x200C, 0x200D, 0x200E, 0x200F, 0x202A, 0x202E, 0x2060, 0x2066, 0x2069, 0x061C, 0x180E, 0x00AD, 0x2028, 0x2029, 0x0085,
 		0x00A0, 0x1680, 0x2000, 0x2003, 0x202F, 0x205F, 0x3000, 0x0301, 0x0300, 0xFE0F, 0xFE00, 0x1F3FB, 0xE000, 0xF8FF, 0xD7FF, 0x10000, 0x10FFFF, 0xFDD0, 0x1D173, 0x7F, 0x80, 0x9F, 0x1B, 0x08, 0x0B, 0x0C} {
 		for _, form := range []string{"%c", "a%cb", "%c%c", "'%c", "%c'", "\"%c", "%c\"", "\\%c", "%c\\", " %c ", "%c.x", "x.%c", "1%c", "_%c"} {
 			c06One(o, strings.Replace(form, "%c", string(c), -1), "codepoint")
@@ -243,6 +251,9 @@ func propC06(o *out, r *rng, thorough bool) {
 				c06One(o, "x"+strings.Repeat(u, n-1), "length")
 			}
 		}
+	}
+	for _, w := range []string{"it\u2019s", "x\u2019 OR \u20181\u2019=\u20181", "\u201cquoted\u201d", "a\u2018b\u201cc", "\u2019", "\u201d; DROP DATABASE d; --"} {
+		c06One(o, w, "typographic")
 	}
 	words := []string{"", "select", "SELECT", "SeLeCt", "from", "time", "true", "FALSE", "and", "or", "ſelect", "KelvinK", "a.b", "a..b", "1abc", "abc1", "_x", "x-y", "with'single", "with\"double", "back\\slash",
 		"new\nline", "\\n", "\\'", "\\\"", "\\\\", "'", "''", "\"\"", "a\"b\"c", "'; DROP DATABASE d; --", "\" OR \"\"=\"", "x' OR 'y", "日本語", "héllo", "😀", "\xff", "\xc3", "a\xffb", "trailing\\", "\\", "a b", " lead", "trail ", "tab\there"}
